@@ -34,11 +34,17 @@ def plot_case(draw):
     g["units"] = [draw(st.sampled_from(["m", "m", "s", "T"])) for _ in range(2)] if draw(st.booleans()) else None
     k = draw(st.integers(1, 3))
     kind = draw(st.sampled_from(["scalar", "contour", "lightness", "mpl"] if k == 1 else ["vector", "vector", "mpl", "lightness", "lightness"]))
-    aux_n = draw(st.sampled_from(["same", "same", "swapped", "other"]))
+    # auxiliary field resolution: the same, transposed, another factorisation of the same number of cells (a shortcut
+    # keyed on the cell count must still resample), or unrelated
+    aux_n = draw(st.sampled_from(["same", "same", "swapped", "same-count", "same-count", "other"]))
     return {"g": g, "k": k, "kind": kind, "vdims": draw(gen.vdims_strategy(k)), "perm": list(draw(st.permutations(range(3)))),
             "use_vdims_arg": draw(st.booleans()), "seed": draw(st.integers(0, 2**31)), "mask": draw(gen.mask_spec(2)),
             "mult": draw(st.sampled_from([None, None, 1e-9, 1e-6, 1e-3, 1, 1e3])),
-            "aux": draw(st.sampled_from(["none", "filter", "filter", "color", "lightness"])), "aux_n": aux_n,
+            # an auxiliary field that this kind of plot uses
+            "aux": draw(st.sampled_from({"scalar": ["none", "filter", "filter"], "contour": ["none", "filter", "filter"],
+                                         "lightness": ["none", "filter", "lightness", "lightness"],
+                                         "vector": ["none", "color", "color"], "mpl": ["none", "none", "filter"]}[kind])),
+            "aux_n": aux_n,
             "aux_other": [draw(st.integers(1, 7)), draw(st.integers(1, 7))], "aux_seed": draw(st.integers(0, 2**31)),
             "lin": [draw(st.integers(-3, 3)), draw(st.integers(-3, 3)), draw(st.integers(-2, 2))]}
 
@@ -84,6 +90,10 @@ def aux_field(case, mesh, lat):
         n2 = list(n)
     elif case["aux_n"] == "swapped":
         n2 = [n[1], n[0]]
+    elif case["aux_n"] == "same-count":
+        tot = int(n[0]) * int(n[1])
+        facs = [[a, tot // a] for a in range(1, tot + 1) if tot % a == 0 and [a, tot // a] != [int(n[0]), int(n[1])]]
+        n2 = facs[case["aux_seed"] % len(facs)] if facs else [n[1], n[0]]
     else:
         n2 = list(case["aux_other"])
     m2 = df.Mesh(region=mesh.region, n=n2)
